@@ -25,7 +25,7 @@ func selectedMethods(pool bool) []string {
 func init() {
 	register(&Prop{
 		ID:   "C12",
-		Rule: "rule sets of 1-8 observer rules (ties), name lists = permuted subsets with 0-3 unknown names inserted (also empty and all-unknown lists, never duplicates), every selected variant of engine and pool (sorted, as-given, stop-tag, concurrent, mix, inverse-mix, selected N-M with matching and non-matching N+M), random failing subset and flag; oracle = reference model instantiated on the named rules that exist (unselected rules never start, as-given order exact, fail-without-running clauses). Non-trivial: >=2 existing names selected and the list is a strict subset or contains an unknown name; distinct by case hash",
+		Rule: "rule sets of 1-8 observer rules (ties), name lists = permuted subsets with 0-3 unknown names inserted (also empty and all-unknown lists, never duplicates), every selected variant of engine and pool (sorted, as-given, stop-tag, concurrent, mix, inverse-mix, selected N-M with matching and non-matching N+M), random failing subset (failing statement drawn from 12 forms as in C04) and flag; oracle = reference model instantiated on the named rules that exist (unselected rules never start, as-given order exact, fail-without-running clauses). Non-trivial: >=2 existing names selected and the list is a strict subset or contains an unknown name; distinct by case hash",
 		New:  func() interface{} { return &SchedCase{} },
 		Gen: func(t *rapid.T) interface{} {
 			c := &SchedCase{QuiesMs: 1}
